@@ -233,6 +233,9 @@ fn shrink_input(p: &dyn LabProp, g: &Grammar, text: &str, req: &Req, known: &dyn
         return (best, String::new(), String::new());
     }
     let Some((mut sig, mut what)) = check(&best, &mut batch) else { return (best, String::new(), String::new()) };
+    // shrinking must stay on the failure it started from
+    let sig0 = sig.clone();
+    let mut check = |r: &Req, batch: &mut Batch| check(r, batch).filter(|(s, _)| *s == sig0);
     let mut chunk = (best.tokens.len() / 2).max(1);
     while chunk >= 1 && !best.tokens.is_empty() && best.base.is_none() {
         let mut i = 0;
@@ -268,6 +271,108 @@ fn shrink_input(p: &dyn LabProp, g: &Grammar, text: &str, req: &Req, known: &dyn
         }
     }
     (best, sig, what)
+}
+
+/// Grammar-level delta debugging (see `gshrink`): rounds of one-step simplifications, each round
+/// compiled as batches; a candidate is taken if the same request still fails with the same
+/// signature. Returns the reduced grammar, its text and the (remapped) request.
+fn shrink_grammar(p: &dyn LabProp, g: &Grammar, req: &Req, sig: &str, tier: Tier, max_rounds: usize) -> (Grammar, String, Req, Option<String>) {
+    let mut best_g = g.clone();
+    let mut best_req = req.clone();
+    best_req.gi = 0;
+    let mut best_what: Option<String> = None;
+    let entry_name = |g: &Grammar, r: &Req| if r.entry == 0 { None } else { g.parts.get(r.entry - 1).map(|x| g.rules[*x].name.clone()) };
+    let started = std::time::Instant::now();
+    for _round in 0..max_rounds {
+        if started.elapsed().as_secs() > 240 {
+            break;
+        }
+        let want_entry = entry_name(&best_g, &best_req);
+        let mut cands: Vec<(Grammar, String, GInfo, Req)> = vec![];
+        for c in crate::gshrink::candidates(&best_g) {
+            if c.size() > best_g.size() {
+                continue;
+            }
+            let ok = std::panic::catch_unwind(std::panic::AssertUnwindSafe(|| {
+                let info = GInfo::new(&c);
+                if p.domain(&c, &info).is_err() {
+                    return None;
+                }
+                let mut r = best_req.clone();
+                if best_req.entry > 0 {
+                    let name = want_entry.clone()?;
+                    r.entry = 1 + c.parts.iter().position(|x| c.rules[*x].name == name)?;
+                }
+                Some((info, r))
+            }));
+            if let Ok(Some((info, r))) = ok {
+                let text = print(&c).text;
+                cands.push((c, text, info, r));
+            }
+        }
+        let mut progressed = false;
+        for chunk in cands.chunks(32) {
+            let items: Vec<(Grammar, String)> = chunk.iter().map(|c| (c.0.clone(), c.1.clone())).collect();
+            let mut batch = lab::build_batch(&items, &LabOpts::default());
+            if batch.infra_error.is_some() {
+                continue;
+            }
+            let mut ev = Evidence::new(p.id(), tier, 0, "");
+            for (k, (cg, _, info, r)) in chunk.iter().enumerate() {
+                if !batch.ready(k) {
+                    continue;
+                }
+                let mut r = r.clone();
+                r.gi = k;
+                let rep = batch.run(&r);
+                let b = &mut batch;
+                let mut more = |q: &Req| b.run(q);
+                let verdict = std::panic::catch_unwind(std::panic::AssertUnwindSafe(|| p.judge(cg, info, &r, &rep, &mut more, &mut ev)));
+                if let Ok(Err((s, w))) = verdict {
+                    if s == sig {
+                        best_g = cg.clone();
+                        best_req = r.clone();
+                        best_req.gi = 0;
+                        best_what = Some(w);
+                        progressed = true;
+                        break;
+                    }
+                }
+            }
+            if progressed {
+                break;
+            }
+        }
+        if !progressed {
+            break;
+        }
+    }
+    // cosmetic last step: drop the tokens nothing refers to (renumbers tokens: verified by a re-run)
+    if best_what.is_some() {
+        let mut keep: Vec<usize> = best_req.tokens.iter().copied().filter(|t| *t != lab::ERROR_KIND).collect();
+        if let Some(b) = &best_req.base {
+            keep.extend(b.iter().copied().filter(|t| *t != lab::ERROR_KIND));
+        }
+        let (g2, map) = crate::gshrink::drop_unused_tokens(&best_g, &keep);
+        if g2.tokens.len() < best_g.tokens.len() {
+            let remap = |v: &Vec<usize>| v.iter().map(|t| if *t == lab::ERROR_KIND { *t } else { map[*t].unwrap() }).collect::<Vec<_>>();
+            let mut r2 = best_req.clone();
+            r2.tokens = remap(&best_req.tokens);
+            r2.base = best_req.base.as_ref().map(remap);
+            let text2 = print(&g2).text;
+            if let Some(vs) = eval_single(p, &g2, &text2, &[r2.clone()], tier) {
+                if let Some((_, Err((s, w)))) = vs.into_iter().next() {
+                    if s == sig {
+                        best_g = g2;
+                        best_req = r2;
+                        best_what = Some(w);
+                    }
+                }
+            }
+        }
+    }
+    let text = print(&best_g).text;
+    (best_g, text, best_req, best_what)
 }
 
 pub struct LabOutcome {
@@ -349,6 +454,7 @@ pub fn run_lab(p: &dyn LabProp, ctx: &Ctx, rep: &mut Report) -> LabOutcome {
         } else if let Some((tree, prof)) = trees[f.case].take() {
             // grammar shrinking on the choice stream
             let istream = c.istream.clone();
+            let sig0 = sig.clone();
             let mut steps = 0;
             let mut fails = |stream: &[u32]| -> bool {
                 steps += 1;
@@ -370,7 +476,7 @@ pub fn run_lab(p: &dyn LabProp, ctx: &Ctx, rep: &mut Report) -> LabOutcome {
                 match eval_single(p, &g2, &text2, &reqs, ctx.tier) {
                     None => false,
                     Some(vs) => {
-                        if let Some((r, Err((s, w)))) = vs.into_iter().find(|(_, v)| matches!(v, Err((s, _)) if !known(s))) {
+                        if let Some((r, Err((s, w)))) = vs.into_iter().find(|(_, v)| matches!(v, Err((s, _)) if *s == sig0)) {
                             best_g = g2;
                             best_text = text2;
                             best_req = r;
@@ -389,6 +495,21 @@ pub fn run_lab(p: &dyn LabProp, ctx: &Ctx, rep: &mut Report) -> LabOutcome {
                 best_req = r2;
                 sig = s2;
                 what = w2;
+            }
+        }
+        if !sig.is_empty() && !what.ends_with("(not reproduced in a solo run)") {
+            // grammar-level delta debugging, then the input once more
+            let (g3, t3, r3, w3) = shrink_grammar(p, &best_g, &best_req, &sig, ctx.tier, 30);
+            if let Some(w3) = w3 {
+                best_g = g3;
+                best_text = t3;
+                best_req = r3;
+                what = w3;
+                let (r4, s4, w4) = shrink_input(p, &best_g, &best_text, &best_req, &known, ctx.tier);
+                if s4 == sig {
+                    best_req = r4;
+                    what = w4;
+                }
             }
         }
         rep.violation(Violation {
